@@ -195,6 +195,21 @@ func c17Guarded(exact bool, f func() *xt.T) (obs *xt.T, panicMsg string, alloc u
 	return
 }
 
+// c17GuardedMin is c17Guarded for a repeatable f: the process-wide allocation counter also sees
+// whatever the runtime and earlier cases' leftovers allocate meanwhile (and the cheap counter is
+// flushed in batches), so an overshoot is confirmed by a second, exact measurement and the
+// smaller of the two deltas is what the deterministic call is charged.
+func c17GuardedMin(exact bool, budget uint64, f func() *xt.T) (obs *xt.T, panicMsg string, alloc uint64, timedOut bool) {
+	obs, panicMsg, alloc, timedOut = c17Guarded(exact, f)
+	if alloc > budget && panicMsg == "" && !timedOut {
+		obs2, p2, a2, t2 := c17Guarded(true, f)
+		if p2 != "" || t2 || a2 < alloc {
+			return obs2, p2, a2, t2
+		}
+	}
+	return
+}
+
 func c17Budget(n int) uint64 { return 64*uint64(n) + 1<<20 }
 
 func runC17(ctx *Ctx, c *xt.T) (*xt.T, Verdict) {
@@ -224,12 +239,7 @@ func runC17(ctx *Ctx, c *xt.T) (*xt.T, Verdict) {
 	if entry == 22 || entry == 23 {
 		b = b[:int(c.Kids[2].N)]
 	}
-	obs, pmsg, alloc, timedOut := c17Guarded(len(b) > 5, func() *xt.T { return c17Entry(entry, b) })
-	if len(b) <= 5 && alloc > c17Budget(len(b)) && pmsg == "" && !timedOut {
-		// the cheap counter is flushed in batches and can blame this call for earlier
-		// ones: confirm with the exact measurement
-		obs, pmsg, alloc, timedOut = c17Guarded(true, func() *xt.T { return c17Entry(entry, b) })
-	}
+	obs, pmsg, alloc, timedOut := c17GuardedMin(len(b) > 5, c17Budget(len(b)), func() *xt.T { return c17Entry(entry, b) })
 	switch {
 	case timedOut:
 		return obs, Fail("decoder-timeout", "entry %d did not return within 60s on %d bytes", entry, len(b))
@@ -318,6 +328,15 @@ func c17Receive1(pack []byte, fp [3]int) (err error, db *objmock.Store, fs *c17F
 }
 
 func c17RunReceive(pack []byte, fp [3]int) (*xt.T, Verdict) {
+	obs, v := c17RunReceive1(pack, fp)
+	if !v.OK && v.Class == "receive-alloc" {
+		// confirm an allocation overshoot on a fresh store (see c17GuardedMin)
+		return c17RunReceive1(pack, fp)
+	}
+	return obs, v
+}
+
+func c17RunReceive1(pack []byte, fp [3]int) (*xt.T, Verdict) {
 	db := objmock.NewStore()
 	fs := &c17FaultStore{Store: db, setAt: fp[0] - 1, kind: fp[1] - 1, getAt: fp[2] - 1}
 	if !bytes.Equal(pack, c17S2Witness) && c17S2Announced(pack) > c17Predict {
